@@ -1,6 +1,7 @@
 #!/bin/bash
 # Runs every seeded change (and the reverse of every fix: commit) against the checks of the property it breaks.
-# Output: seeded/RESULTS.tsv  (id, property, exit, first violation rule)
+# Output: seeded/RESULTS.tsv  (id, property, exit, rule of the first VIOLATION line, number of VIOLATION lines)
+# detected = exit 1 with at least one VIOLATION line; exit 2 alone (UNDECIDED) does not count as detection
 DIR="$(cd "$(dirname "${BASH_SOURCE[0]}")" && pwd)"
 cd "$DIR"
 ./run.sh build
@@ -12,8 +13,9 @@ run_one() {
   case " $claimed " in *" $prop "*) ;; *) echo -e "$id\t$prop\tnot-claimed\t-"; return;; esac
   r=$(./mutest.sh $d/patch.diff $prop 2>&1)
   code=$(echo "$r" | sed -n 's/^== .* exit=\([0-9]*\)$/\1/p' | head -1)
-  rule=$(echo "$r" | grep -o 'rule=[^ ]*' | head -1)
-  echo -e "$id\t$prop\t$code\t${rule:--}"
+  rule=$(echo "$r" | grep '^VIOLATION' | grep -o 'rule=[^ ]*' | head -1)
+  nv=$(echo "$r" | grep -c '^VIOLATION')
+  echo -e "$id\t$prop\t$code\t${rule:--}\t$nv"
 }
 export -f run_one
 ls -d seeded/C*-* | xargs -P 8 -I{} bash -c 'run_one {}' >> $out.tmp
